@@ -549,6 +549,14 @@ func genRewardJSON(rng *rand.Rand) (string, string) {
 		return `null`, "null"
 	case 2:
 		return pickStr(rng, `{}`, `"x"`, `[[]]`, `[null]`, `[{}]`, `[1]`, `{"denom":"stake","amount":"1"}`), "wrong-shape"
+	case 3, 4, 5:
+		// one denomination twice with another one in between (a duplicate check that only looks at neighbours, or at a
+		// sorted copy, behaves differently here); small amounts, so that funded pools get into the "less than two
+		// rewards left" zone within a few blocks
+		perm := rng.Perm(4)
+		a, b := rewardDenoms[perm[0]], rewardDenoms[perm[1]]
+		x, y := 1+rng.Intn(3000), 1+rng.Intn(3000)
+		return fmt.Sprintf(`[{"denom":%q,"amount":"%d"},{"denom":%q,"amount":"%d"},{"denom":%q,"amount":"%d"}]`, a, x, b, y, a, x), "dup-non-adjacent"
 	}
 	n := 1 + rng.Intn(4)
 	shape := "multi"
